@@ -376,3 +376,79 @@ Definition hview (s : st) (h : Z) : option (list Z * Z * Z) :=
 (* total number of bytes a client can actually get back *)
 Definition sum_data (r : list (Z * (list Z * Z * Z))) : Z :=
   fold_right (fun x acc => zlen (fst (fst (snd x))) + acc) 0 r.
+
+(* the body a store in progress has received so far, and the origin metadata it will carry *)
+Definition pending_body (b : backend) (s : st) (k : Z) : option (list Z * Z) :=
+  match aget k (s_wr s) with
+  | None => None
+  | Some w => Some (match b with Mem => w_buf w | File => inode_bytes s (w_ino w) end, w_obj w)
+  end.
+
+(* actions that end the life of handle h *)
+Definition ends_handle (h : Z) (a : act) : bool :=
+  match a with
+  | AClose h' => h' =? h
+  | AReopen => true
+  | _ => false
+  end.
+
+Definition reads_handle (h : Z) (a : act) : bool :=
+  match a with ARead h' _ => h' =? h | _ => false end.
+
+(* chunks delivered through handle h in a run (actions with their results), and the bytes asked for *)
+Fixpoint chunks_read (h : Z) (acts : list act) (outs : list out) : list (list Z) :=
+  match acts, outs with
+  | a :: ar, o :: orr =>
+      (if reads_handle h a then match o with RBytes d _ _ => [d] | _ => [] end else []) ++ chunks_read h ar orr
+  | _, _ => []
+  end.
+
+Fixpoint requested (h : Z) (acts : list act) : Z :=
+  match acts with
+  | [] => 0
+  | a :: r => (match a with ARead h' n => if h' =? h then Z.max 0 n else 0 | _ => 0 end) + requested h r
+  end.
+
+(* every read through h reported the metadata (size, obj) *)
+Fixpoint read_metas (h sz o : Z) (acts : list act) (outs : list out) : Prop :=
+  match acts, outs with
+  | a :: ar, x :: orr =>
+      (reads_handle h a = true -> exists d, x = RBytes d sz o) /\ read_metas h sz o ar orr
+  | _, _ => True
+  end.
+
+Definition keeps_handle (h : Z) (acts : list act) : bool := forallb (fun a => negb (ends_handle h a)) acts.
+
+(* the version a handle-returning action opens *)
+Definition opened_version (b : backend) (s : st) (a : act) : option (list Z * Z) :=
+  match a with
+  | AGet k => match current b s k with Some (d, _, o) => Some (d, o) | None => None end
+  | ACommit k => pending_body b s k
+  | _ => None
+  end.
+
+(* a store to k is completed somewhere in the list *)
+Definition commits_key (k : Z) (a : act) : bool := match a with ACommit k' => k' =? k | _ => false end.
+Definition no_commit (k : Z) (acts : list act) : bool := forallb (fun a => negb (commits_key k a)) acts.
+
+(* the key an action addresses (None: handle-, clock- or janitor-level) *)
+Definition key_of (a : act) : option Z :=
+  match a with
+  | ABegin k _ _ _ | AWrite k _ | AAbort k | ACommit k | AGet k | ADelete k | AUpdate k _ => Some k
+  | _ => None
+  end.
+
+(* what the source of the store to k delivers during a list of actions *)
+Fixpoint written_to (k : Z) (acts : list act) : list Z :=
+  match acts with
+  | [] => []
+  | AWrite k' c :: r => (if k' =? k then c else []) ++ written_to k r
+  | _ :: r => written_to k r
+  end.
+
+Definition ends_store (k : Z) (a : act) : bool :=
+  match a with
+  | AAbort k' | ACommit k' => k' =? k
+  | AReopen => true
+  | _ => false
+  end.
